@@ -743,19 +743,18 @@ def run_case(ctx, case):
     res, d = pool.run(b.p.s, keepdir=True)
     try:
         probs = b.p.evaluate(res)
-        if not probs:
-            for pre, post, what in b.abort_pairs:
-                try:
-                    x = open(os.path.join(d, pre), "rb").read()
-                    y = open(os.path.join(d, post), "rb").read()
-                except OSError as e:
-                    probs.append({"kind": "nofile", "msg": "%s: %s" % (what, e), "sig": {"kind": "abort_nofile"}})
-                    continue
-                if x != y:
-                    n = min(len(x), len(y))
-                    diff = np.nonzero(np.frombuffer(x[:n], np.uint8) != np.frombuffer(y[:n], np.uint8))[0]
-                    probs.append({"kind": "abort", "msg": "%s: file differs from the copy taken before redef (size %d -> %d, first differing byte %s, %d bytes differ)" % (
-                        what, len(x), len(y), int(diff[0]) if len(diff) else n, len(diff)), "sig": {"kind": "abort_bytes"}})
+        for pre, post, what in b.abort_pairs:
+            try:
+                x = open(os.path.join(d, pre), "rb").read()
+                y = open(os.path.join(d, post), "rb").read()
+            except OSError as e:
+                probs.append({"kind": "nofile", "msg": "%s: %s" % (what, e), "sig": {"kind": "abort_nofile"}})
+                continue
+            if x != y:
+                n = min(len(x), len(y))
+                diff = np.nonzero(np.frombuffer(x[:n], np.uint8) != np.frombuffer(y[:n], np.uint8))[0]
+                probs.append({"kind": "abort", "msg": "%s: file differs from the copy taken before redef (size %d -> %d, first differing byte %s, %d bytes differ)" % (
+                    what, len(x), len(y), int(diff[0]) if len(diff) else n, len(diff)), "sig": {"kind": "abort_bytes"}})
         if not probs:
             for nm, fmc, what in b.snap_checks:
                 pr = decode_compare(os.path.join(d, nm), fmc, "independent decode of the file copied at '%s'" % what)
@@ -920,7 +919,7 @@ def case_script(case):
 
 
 def campaign(ctx):
-    n = {"quick": 66, "thorough": 1150}[ctx.tier]
+    n = {"quick": 66, "thorough": 1000}[ctx.tier]
     runner.run_hypothesis(ctx, case_strategy(ctx.tier), runner.guarded(run_case), n)
     if ctx.widx == 0:
         runner.run_hypothesis(ctx, big_strategy(ctx.tier), runner.guarded(run_case), {"quick": 2, "thorough": 6}[ctx.tier], label="big")
